@@ -62,6 +62,10 @@ pub enum Act {
     ExtendPairs(Vec<(String, Val)>),
     /// `extend` with entries
     ExtendEntries(Vec<(String, Val)>),
+    /// `extend` from an iterator (of entries if the flag is set, of pairs otherwise) that yields
+    /// the given items and then *panics*; the panic is caught and the object is used again
+    /// (what was yielded before the panic has been pushed, nothing else changed)
+    ExtendPanics(Vec<(String, Val)>, bool),
     /// continue on `entries.collect::<Object>()` (FromIterator<Entry>)
     FromIterEntries,
     /// continue on `pairs.collect::<Object>()` (FromIterator<(Key, Value)>)
@@ -110,6 +114,7 @@ impl fmt::Display for Act {
             Act::CloneFrom(n) => write!(f, "clone_from({n})"),
             Act::ExtendPairs(p) => write!(f, "extend_pairs({})", pairs_str(p)),
             Act::ExtendEntries(p) => write!(f, "extend_entries({})", pairs_str(p)),
+            Act::ExtendPanics(p, e) => write!(f, "extend_{}_then_panic({})", if *e { "entries" } else { "pairs" }, pairs_str(p)),
             Act::FromIterEntries => write!(f, "from_iter_entries()"),
             Act::FromIterPairs => write!(f, "from_iter_pairs()"),
             Act::FromVec => write!(f, "from_vec()"),
@@ -161,6 +166,8 @@ impl Act {
             "clone_from" => Act::CloneFrom(a[0].parse().ok()?),
             "extend_pairs" => Act::ExtendPairs(pairs(args)?),
             "extend_entries" => Act::ExtendEntries(pairs(args)?),
+            "extend_entries_then_panic" => Act::ExtendPanics(pairs(args)?, true),
+            "extend_pairs_then_panic" => Act::ExtendPanics(pairs(args)?, false),
             "from_iter_entries" => Act::FromIterEntries,
             "from_iter_pairs" => Act::FromIterPairs,
             "from_vec" => Act::FromVec,
@@ -289,14 +296,14 @@ pub static SAW: std::sync::atomic::AtomicU8 = std::sync::atomic::AtomicU8::new(0
 /// audit is a deterministic function of exactly that, so it is run once per unique state.
 pub static AUDITED: std::sync::OnceLock<Vec<std::sync::Mutex<std::collections::HashSet<u64>>>> = std::sync::OnceLock::new();
 
-pub const KINDS: [&str; 24] = [
+pub const KINDS: [&str; 26] = [
     "push", "push_entry", "push_front", "push_entry_front", "insert", "insert_front", "remove", "remove_unique", "remove_at", "sort", "get_mut_write",
     "iter_mut_write", "get_unique_mut_write", "get_or_insert_with", "get_mut_or_insert_with_write", "clone", "extend_pairs", "extend_entries",
-    "from_iter_entries", "from_iter_pairs", "from_vec", "into_iter_from", "ref_mut_into_iter_write", "clone_from",
+    "from_iter_entries", "from_iter_pairs", "from_vec", "into_iter_from", "ref_mut_into_iter_write", "clone_from", "extend_entries_then_panic", "extend_pairs_then_panic",
 ];
 
 /// Transitions executed per operation kind (evidence: the outcome histogram of the search).
-pub static KIND_COUNT: [std::sync::atomic::AtomicU64; 24] = [const { std::sync::atomic::AtomicU64::new(0) }; 24];
+pub static KIND_COUNT: [std::sync::atomic::AtomicU64; 26] = [const { std::sync::atomic::AtomicU64::new(0) }; 26];
 
 impl Act {
     pub fn kind_index(&self) -> usize {
@@ -629,6 +636,30 @@ pub fn apply(real: &mut Object, model: &mut RObj<Val>, a: &Act, saw: &mut u8) ->
                 model.push(k, *v);
             }
         }
+        Act::ExtendPanics(p, entries) => {
+            let items: Vec<(String, Val)> = p.clone();
+            let n = items.len();
+            let mut i = 0;
+            let src = std::iter::from_fn(move || {
+                if i < n {
+                    i += 1;
+                    Some(items[i - 1].clone())
+                } else {
+                    panic!("the source of extend failed")
+                }
+            });
+            let caught = if *entries {
+                std::panic::catch_unwind(std::panic::AssertUnwindSafe(|| real.extend(src.map(|(k, v)| Entry::new(key(&k), val(v))))))
+            } else {
+                std::panic::catch_unwind(std::panic::AssertUnwindSafe(|| real.extend(src.map(|(k, v)| (key(&k), val(v))))))
+            };
+            if caught.is_ok() {
+                return Err("extend returned normally although its source panicked".into());
+            }
+            for (k, v) in p {
+                model.push(k, *v);
+            }
+        }
         Act::FromIterEntries => {
             *real = real.iter().cloned().collect::<Object>();
         }
@@ -686,6 +717,18 @@ pub fn audit(real: &Object, model: &RObj<Val>, keys: &[String], c14: bool) -> Re
         }
         if real.index_of(k) != p.first().copied() {
             return fail("index_of");
+        }
+        // the lookup iterators through the whole Iterator protocol (size_hint at every step,
+        // nth on fresh and partially consumed iterators, step_by, skip, count, last, fold)
+        if p.len() <= 5 {
+            let ents = real.entries();
+            let want_vals: Vec<&Value> = p.iter().map(|&i| &ents[i].value).collect();
+            let want_ents: Vec<&Entry> = p.iter().map(|&i| &ents[i]).collect();
+            let want_vi: Vec<(usize, &Value)> = p.iter().map(|&i| (i, &ents[i].value)).collect();
+            bridge::iterator_protocol(&format!("get({k:?})"), || real.get(k), &want_vals)?;
+            bridge::iterator_protocol(&format!("get_entries({k:?})"), || real.get_entries(k), &want_ents)?;
+            bridge::iterator_protocol(&format!("indexes_of({k:?})"), || real.indexes_of(k), &p)?;
+            bridge::iterator_protocol(&format!("get_with_index({k:?})"), || real.get_with_index(k), &want_vi)?;
         }
         if real.redundant_index_of(k) != p.get(1).copied() {
             return fail("redundant_index_of");
@@ -874,6 +917,8 @@ impl Model for ObjModel {
                         out.push(Act::PushEntryFront(k.clone(), v));
                         out.push(Act::ExtendPairs(vec![(k.clone(), v)]));
                         out.push(Act::ExtendEntries(vec![(k.clone(), v)]));
+                        out.push(Act::ExtendPanics(vec![(k.clone(), v)], true));
+                        out.push(Act::ExtendPanics(vec![(k.clone(), v)], false));
                     }
                 }
                 let present = s.model.contains(k);
@@ -927,6 +972,7 @@ impl Model for ObjModel {
         out.push(Act::FromVec);
         out.push(Act::IntoIterFrom);
         out.push(Act::ExtendPairs(vec![]));
+        out.push(Act::ExtendPanics(vec![], true));
     }
 
     fn next_state(&self, s: &St, a: Act) -> Option<St> {
